@@ -4,6 +4,9 @@ CONSTANTS
   NV = 2
   Scenarios = {1}
   CredOf <- MCCredOf
+  JoinKey <- MCJoinKey
+  SplitUser <- MCSplitUser
+  SplitPw <- MCSplitPw
   InitActive <- MCInit
   Paired = FALSE
   Fixed = FALSE
